@@ -724,6 +724,10 @@ func TestVerifNhsim(t *testing.T) {
 		}
 	case "pipe":
 		rec.keep = func(ev string) bool { return ev != "Enter" && ev != "Exit" && ev != "SMNew" }
+	case "snap":
+		rec.keep = func(ev string) bool {
+			return ev != "Send" && ev != "Save" && ev != "Enter" && ev != "Exit" && ev != "Inv" && ev != "Res" && ev != "Leader"
+		}
 	case "smc":
 		rec.keep = func(ev string) bool { return ev != "Send" && ev != "Save" && ev != "Boot" }
 	}
@@ -750,6 +754,10 @@ func TestVerifNhsim(t *testing.T) {
 		}
 		if os.Getenv("VERIF_STORE") != "" {
 			p.store = os.Getenv("VERIF_STORE")
+		}
+		if mode == "snap" {
+			nhScenarioSnap(rec, tid, s, sms[tid%3], p.store, nhEnvInt("VERIF_ROUNDS", 8))
+			continue
 		}
 		if mode == "smc" && tid%2 == 1 {
 			nhScenarioSMC(rec, tid, s, sms[(tid/2)%3], p.store, p.durMs)
